@@ -572,3 +572,24 @@ func runInBubble(t *testing.T, f func()) {
 	defer func() { refTime = saved }()
 	synctest.Test(t, func(t *testing.T) { f() })
 }
+
+// healAndCheck: C02 - once datagrams get through again everything written is delivered and the
+// backlog returns to zero within a time bounded by the retransmission timers.
+func (s *coreSim) healAndCheck(limit uint32, useUpdate bool) int {
+	s.rep.Monitors["drains-after-healing"]++
+	d := s.drain(limit, useUpdate)
+	if s.dead {
+		return d
+	}
+	if d < 0 {
+		s.violate("core-wedge", fmt.Sprintf("after %d ms of a healed network the backlog has not drained: WaitSnd=%d/%d snd_una=%d snd_nxt=%d rmt_wnd=%d (endpoint 0)",
+			limit, s.k[0].WaitSnd(), s.k[1].WaitSnd(), s.k[0].snd_una, s.k[0].snd_nxt, s.k[0].rmt_wnd))
+		return d
+	}
+	for e := 0; e < 2; e++ {
+		if !bytes.Equal(flat(s.delivered[e]), flat(s.accepted[1-e])) && !s.forged {
+			s.violate("core-undelivered", "the backlog drained but the reader has not received everything that was written")
+		}
+	}
+	return d
+}
